@@ -132,10 +132,14 @@ PROPS = {
         'explanation': 'Proof: the statement is the postcondition of wrap_first_fit and wrap_optimal_fit, discharged by Verus on the extracted functions; BEC re-checks it by execution.',
     },
     'C07': {
-        'units': ['U1', 'U17'], 'level': 'proof', 'kani': [K2], 'trusted': ['A1', 'A5', 'A12'],
+        'units': ['U1', 'U17', 'U11'], 'level': 'proof', 'kani': [K2], 'trusted': ['A1', 'A5', 'A9', 'A12', 'A17'],
         'proved_part': 'Verus, all inputs: with acc = left fold of width+whitespace from 0.0 and overflows(a,i,lw) = acc + w_i + p_i > lw evaluated in f64, no non-first fragment of a '
-                       'line overflowed when it was added, and the first fragment of every following line did; line k uses the k-th width, the last repeats.',
-        'bounded_part': 'BEC: the same on the real function with real floats; the text-level corollary (wrap == greedy rule over the words cut at split points). '
+                       'line overflowed when it was added, and the first fragment of every following line did; line k uses the k-th width, the last repeats (U1). The dispatch WrapAlgorithm::wrap '
+                       'hands the words and every listed width on unchanged and exports the same greedy rule for FirstFit (U17). The text-level reading ("in wrapped text every line holds as '
+                       'many fragments as fit") is the composition of that with U11\'s functional postcondition: the lines of a paragraph are exactly the runs the dispatch returns for '
+                       'para_words(paragraph) — the words found, split and (if asked) force-broken — at the widths of the indents actually rendered (two proved contracts, linked by the '
+                       'restated callee contract A9/A17; the composition itself is not a single Verus obligation).',
+        'bounded_part': 'BEC: the same on the real function with real floats; the text-level corollary (wrap == greedy rule over the words cut at split points) end to end on the real crate. '
                         'Thorough tier: Kani K2, bit-precise IEEE-754, 3 fragments with quarter-integer widths (bounded; about 10 min, 13 GB).',
         'explanation': 'Proof: greedy-maximality is the postcondition of wrap_first_fit (exists breaks. lines_match && greedy), discharged by Verus; BEC re-checks by execution.',
     },
